@@ -59,6 +59,8 @@ Definition sw_shake_only : switches :=
   {| sw_coalesce := false; sw_shake := true; sw_rewrite := false; sw_matrix := false |}.
 Definition sw_coalesce_matrix : switches :=
   {| sw_coalesce := true; sw_shake := false; sw_rewrite := false; sw_matrix := true |}.
+Definition sw_coalesce_shake : switches :=
+  {| sw_coalesce := true; sw_shake := true; sw_rewrite := false; sw_matrix := false |}.
 
 (* D17: a two-column matrix under `not`: the verdict depends on the column order *)
 Example refuted_D17 :
@@ -74,6 +76,8 @@ Check refuted_D17.
 
 (* D22: two merged automata of equal size on different fields: the optimised tree (hence
    its Display) depends on the order, the verdict does not *)
+(* (since fix D15/D20 the group of an identifier body stays when the identifier is not inlined:
+   the witness inlines it, coalesce + shake, and compares the optimised conditions) *)
 Definition ord_desc2 : hord :=
   fun l => match l with [a; b] => if str_ltb a b then [b; a] else [a; b] | _ => l end.
 
@@ -82,8 +86,8 @@ Example refuted_D22 :
   let r := mk_rule (EIdent [88%N])
              [([88%N], EGroup BOr [s [102%N] [97%N]; s [102%N] [98%N]; s [103%N] [99%N]; s [103%N] [100%N]])] in
   exists r1 r2,
-    optimise o0 (fun k => k) sw_shake_only r = Ok r1 /\
-    optimise o0 ord_desc2 sw_shake_only r = Ok r2 /\
-    expr_eqb (snd (hd ([], ENull) (d_ids (r_det r1)))) (snd (hd ([], ENull) (d_ids (r_det r2)))) = false.
+    optimise o0 (fun k => k) sw_coalesce_shake r = Ok r1 /\
+    optimise o0 ord_desc2 sw_coalesce_shake r = Ok r2 /\
+    expr_eqb (d_expr (r_det r1)) (d_expr (r_det r2)) = false.
 Proof. exact C12.refuted_D22. Qed.
 Check refuted_D22.
